@@ -74,8 +74,10 @@ def cases(tier, seed):
     # connection lists built internally by the 2D stiffeners (interface positions, offsets, constants)
     for curved, ecb, ecf, widths in itertools.product([0, 1], [0.0, -0.5], [-1.0, 1.0, 0.5], [(0.10, 0.03), (0.04, 0.06)]):
         out.append(dict(kind='tstiff', curved=curved, eta_conn_base=ecb, eta_conn_flange=ecf, bb=widths[0], bf=widths[1], seed=seed))
-    for curved, ysf, bf in itertools.product([0, 1], [0.2, 0.5, 0.8], [0.03, 0.06]):
-        out.append(dict(kind='b2d', curved=curved, ysf=ysf, bf=bf, seed=seed))
+    for curved, ysf, bf, ffl in itertools.product([0, 1], [0.2, 0.5, 0.8], [0.03, 0.06], ['default', 'u_free', 'mixed', 'generic']):
+        if ffl != 'default' and (ysf != 0.5 or bf != 0.03):
+            continue
+        out.append(dict(kind='b2d', curved=curved, ysf=ysf, bf=bf, fflags=ffl, seed=seed))
     return out
 
 
@@ -295,6 +297,15 @@ def check_b2d(case):
     spb.add_panel(y1=0., y2=ys)
     spb.add_panel(y1=ys, y2=spb.b)
     s = spb.add_bladestiff2d(ys=ys, mu=1500., bf=case['bf'], fstack=[0., 90., 0.], fplyt=pan.PLYT, flaminaprop=pan.M6, mf=4, nf=3)
+    # edge restraints of the flange that differ between u, v and w (every series of the connection must use its own flags)
+    ffl = case.get('fflags', 'default')
+    if ffl == 'u_free':
+        s.flange.u1tx = s.flange.u2tx = 1.0
+    elif ffl == 'mixed':
+        s.flange.u1tx, s.flange.u2rx, s.flange.v2tx, s.flange.w1rx = 1.0, 1.0, 1.0, 0.0
+    elif ffl == 'generic':
+        for k, nm in enumerate(['u1tx', 'u1rx', 'u2tx', 'u2rx', 'v1tx', 'v1rx', 'v2tx', 'v2rx', 'w1tx', 'w1rx', 'w2tx', 'w2rx']):
+            setattr(s.flange, nm, [0.7, 1.1, 0.0, 1.3, 0.0, 0.9, 1.2, 1.0, 0.0, 0.6, 0.0, 1.4][k])
     Kt = pan.dense(spb.calc_k0(silent=True))
     size = spb.get_size()
     nskin = 3 * spb.m * spb.n
